@@ -9,12 +9,22 @@
        stored value (or the zero value) - so the value of a row after the commits c1..cn applied in
        latch order is the initial value combined with every delta once, in that order; and the
        rewritten (absolute) operations a consumer of the stream sees reproduce the same value.
+   (c) both together, on the real store model (ConcStore.v): ANY number of writer threads, each
+       committing its own transaction (any operations, any number of blocks) block after block
+       under the block's latch, interleaved in ANY way over one shared collection:
+       [c09_cell_is_fold_under_any_interleaving] - in every reachable state every cell holds the
+       fold, over the transactions applied to its block in apply order, of the operations they
+       queued for it (initial value combined with every committed delta exactly once, in the
+       order the commits were applied to the row's block; any merge function);
+       [c09_no_commit_lost_or_doubled] - every thread applied exactly a prefix of its dirty
+       blocks, each once, and all of them once it has finished;
+       [c09_some_thread_moves] - and the protocol cannot get stuck.
    (a)+(b) is the property; that the implementation's read-modify-write really happens inside the
    latch is validated by replaying recorded schedules through [lock_step] and by the scheduler
    scenario 'rows' (order-sensitive merge v*3+d, final value = fold in latch order). *)
 From stdpp Require Import gmap list.
 From ColumnV Require Import Bytes Store StoreProofs.
-From ColumnV Require Conc.
+From ColumnV Require Conc ConcStore.
 Local Open Scope N_scope.
 
 Theorem c09_every_commit_applied_exactly_once : ∀ threads s,
@@ -39,3 +49,56 @@ Example c09_example :
   cells (fst (col_apply col [mkop KMerge 0 (V8 1); mkop KMerge 0 (V8 2)])) !! 0%N = Some (V8 5) ∧
   cells (fst (col_apply col [mkop KMerge 0 (V8 2); mkop KMerge 0 (V8 1)])) !! 0%N = Some (V8 7).
 Proof. vm_compute. done. Qed.
+
+Theorem c09_store_is_fold_of_block_commits : ∀ s0 txns s,
+  ConcStore.reach (ConcStore.init s0 txns) s → ConcStore.st s = foldl ConcStore.apply_entry s0 (ConcStore.trace s).
+Proof. exact ConcStore.store_is_fold. Qed.
+Print Assumptions c09_store_is_fold_of_block_commits.
+
+Theorem c09_cell_is_fold_under_any_interleaving : ∀ s0 txns s c col i,
+  ConcStore.reach (ConcStore.init s0 txns) s → cols s0 !! c = Some col →
+  read (ConcStore.st s) c i = hist_cell col (read s0 c i) c i (ConcStore.block_txns (blk i) (ConcStore.trace s)).
+Proof. exact ConcStore.cell_is_fold_of_trace. Qed.
+Print Assumptions c09_cell_is_fold_under_any_interleaving.
+
+Theorem c09_no_commit_lost_or_doubled : ∀ s0 txns s t w,
+  ConcStore.reach (ConcStore.init s0 txns) s → ConcStore.ths s !! t = Some w →
+  ∃ k, ConcStore.eblk <$> filter (λ e, ConcStore.etid e = t) (ConcStore.trace s) = take k (dirty_blocks (ConcStore.wtxn w)) ∧
+       Forall (λ e, ConcStore.etxn e = ConcStore.wtxn w) (filter (λ e, ConcStore.etid e = t) (ConcStore.trace s)) ∧
+       NoDup (ConcStore.eblk <$> filter (λ e, ConcStore.etid e = t) (ConcStore.trace s)) ∧
+       (ConcStore.wtodo w = [] → ConcStore.whold w = None → k = length (dirty_blocks (ConcStore.wtxn w))).
+Proof. exact ConcStore.thread_progress. Qed.
+Print Assumptions c09_no_commit_lost_or_doubled.
+
+Theorem c09_finished_means_all_applied : ∀ s0 txns s t x,
+  ConcStore.reach (ConcStore.init s0 txns) s → ConcStore.finished s → txns !! t = Some x →
+  ConcStore.eblk <$> filter (λ e, ConcStore.etid e = t) (ConcStore.trace s) = dirty_blocks x.
+Proof. exact ConcStore.finished_all_applied. Qed.
+Print Assumptions c09_finished_means_all_applied.
+
+Theorem c09_some_thread_moves : ∀ s0 txns s t w,
+  ConcStore.reach (ConcStore.init s0 txns) s → ConcStore.ths s !! t = Some w →
+  ¬ (ConcStore.wtodo w = [] ∧ ConcStore.whold w = None) → ∃ u s', ConcStore.do_step s u = Some s'.
+Proof. exact ConcStore.some_thread_moves. Qed.
+Print Assumptions c09_some_thread_moves.
+
+(* non-vacuity: two writers with an order-sensitive merge (v*3+d) on row 5; the second also writes
+   block 1; schedule: T2 commits block 0, T1 locks and applies block 0, T2 locks block 1, T1 unlocks,
+   T2 applies and unlocks.  The run is a reachable state of the LTS and row 5 holds (0*3+2)*3+1 *)
+Definition ex_col := mkcol true (λ a b, match a, b with V8 x, V8 y => V8 (x * 3 + y) | _, _ => b end) (V8 0) id ∅.
+Definition ex_s0 := create_column coll0 1 ex_col false.
+Definition ex_txns : gmap nat txn :=
+  {[ 1%nat := push txn0 1 (mkop KMerge 5 (V8 1));
+     2%nat := push (push txn0 1 (mkop KMerge 5 (V8 2))) 1 (mkop KMerge 20000 (V8 7)) ]}.
+Definition ex_sched := [2; 2; 2; 1; 1; 2; 1; 2; 2]%nat.
+Example c09_concurrent_example : ∃ s,
+  ConcStore.reach (ConcStore.init ex_s0 ex_txns) s ∧ ConcStore.run (ConcStore.init ex_s0 ex_txns) ex_sched = Some s ∧
+  read (ConcStore.st s) 1 5 = Some (V8 7) ∧ (ConcStore.eblk <$> ConcStore.trace s) = [0; 0; 1] ∧
+  (ConcStore.etid <$> ConcStore.trace s) = [2; 1; 2]%nat ∧ (rid <$> emitted (ConcStore.st s)) = [1; 2; 3].
+Proof.
+  destruct (ConcStore.run (ConcStore.init ex_s0 ex_txns) ex_sched) as [s|] eqn:E; [|by vm_compute in E].
+  exists s. split; [by eapply ConcStore.run_reach; [apply ConcStore.r_refl|]|]. split; [done|].
+  assert (H : (λ s, (read (ConcStore.st s) 1 5, ConcStore.eblk <$> ConcStore.trace s, ConcStore.etid <$> ConcStore.trace s, rid <$> emitted (ConcStore.st s)))
+                <$> ConcStore.run (ConcStore.init ex_s0 ex_txns) ex_sched = Some (Some (V8 7), [0; 0; 1], [2; 1; 2]%nat, [1; 2; 3])) by (vm_compute; reflexivity).
+  rewrite E in H. cbn in H. by injection H as -> -> -> ->.
+Qed.
